@@ -645,6 +645,13 @@ def h1_flat_header(ctx, fmt, mod, wfn, rfn, prov, b, wblocks):
         if not used or not kinds:
             continue
         n += 1
+        # `n = int(<line tokens>[k])`: k is the position of the count on the header line written by the exporter
+        if isinstance(st.value, ast.Call) and len(st.value.args) == 1 and isinstance(st.value.args[0], ast.Subscript) \
+                and isinstance(au.const(st.value.args[0].slice), int) and i < len(wc):
+            k = au.const(st.value.args[0].slice)
+            ctx.check(k == wc[i][3], "C04-H1", rsite,
+                      f"{fmt}: header count #{i + 1} is read from token {k} of its line, the exporter writes it as token {wc[i][3]}",
+                      "the number of rows to read is taken from the wrong token", note=f"{fmt}: count #{i + 1} token position agrees")
         wk = wc[i][0] if i < len(wc) else None
         mine = [wb.kind for wb in wblocks if wb.kind in kinds]
         ctx.check(wk in kinds and (not mine or set(mine) == {wk}), "C04-H1", wsite,
@@ -904,6 +911,20 @@ def run_medit(ctx, repo):
                                                   for x in au.walk(cc.resolve(rb.b, rb.count, at=rb.node)))
             ctx.check(cnt_ok, "C04-H1", rs, f"medit {kw}: the number of rows to parse is not read from the count line",
                       "the exporter writes the number of rows on the line after the keyword")
+    used_kw = set()
+    for wb in wblocks:
+        ls = preceding_lines(wb.loop, b)
+        if len(ls) >= 2 and len(ls[-2]) == 1 and ls[-2][0][0] == "lit":
+            used_kw.add(ls[-2][0][1].strip())
+    for c in au.calls(wfn):
+        if au.call_tail(c) == "write" and len(c.args) == 1:
+            ls = cc.lines_of(cc.flatten(c.args[0], b, c))
+            if ls and len(ls[0]) == 1 and ls[0][0][0] == "lit" and ls[0][0][1].strip() in rkey:
+                kw = ls[0][0][1].strip()
+                ctx.check(kw in used_kw, "C04-E1", ctx.site(mod, wfn, c),
+                          f"medit: section `{kw}` is announced but no loop writes its rows",
+                          "the importer reads as many rows as the count says from whatever follows",
+                          note=f"medit: section {kw} is followed by its rows")
     coordinate_order(ctx, fmt, mod, wfn, wblocks)
     nb = b1_writer_offsets(ctx, fmt, mod, wfn, prov, b) + b1_reader_offsets(ctx, fmt, mod, rblocks)
     floor(ctx, "C04-B1 medit index sites", nb, 3, ctx.site(mod, wfn))
@@ -1041,6 +1062,20 @@ def tagged_rules(ctx, fmt, mod, wfn, rfn, wblocks, rblocks, vertices_dim=3):
         rs = ctx.site(mod, rb.fn, rb.node)
         n += 1
         tg = f"`{wb.tag}` " if wb.tag else ""
+        if wb.tag is not None:
+            for expr, const, pol, test in rb.keys:
+                if pol and const == wb.tag and isinstance(expr, ast.Subscript) and isinstance(au.const(expr.slice), int):
+                    ctx.check(au.const(expr.slice) == 0, "C04-E1", rs,
+                              f"{fmt}: the importer looks for the tag `{wb.tag}` in token {au.const(expr.slice)} of the line, it is "
+                              f"written first", "no line of a saved file is recognised as that element",
+                              note=f"{fmt}: tag `{wb.tag}` is the first token on both sides")
+        # a literal row `(tok[i], tok[j], ..)` takes consecutive tokens
+        known = [p_ for p_ in rb.spec.token_positions if p_ is not None]
+        if known and len(known) == len(rb.spec.token_positions):
+            ctx.check(known == list(range(known[0], known[0] + len(known))), "C04-E1", rs,
+                      f"{fmt}: {tg}{wb.kind} row is built from tokens {known}, not from consecutive tokens",
+                      "the exporter writes the indices of an element one after the other",
+                      note=f"{fmt}: {tg}row read from consecutive tokens")
         ctx.check(rb.kind == wb.kind, "C04-E1", rs, f"{fmt}: {tg}rows are written from mesh.{wb.kind} and read into {rb.kind}",
                   f"elements saved as {wb.kind} come back as {rb.kind}", note=f"{fmt}: {tg}rows are {wb.kind} on both sides")
         wa, ra = writer_arity(wb), reader_arity(rb)
@@ -1180,6 +1215,15 @@ def len_tagged_rules(ctx, fmt, mod, wfn, rfn, wblocks, rblocks, domain):
     (its test evaluated for t over a finite tag domain), and does it store the same kind with t vertices."""
     n = 0
     tag_e = tag_expression(rblocks)
+    if tag_e is not None and any(isinstance(wb.tag, tuple) for wb in wblocks):
+        # the tag is the first token of the row on both sides
+        rb0 = next(rb for rb in rblocks if rb.kind != "vertices")
+        te = cc.resolve(rb0.b, tag_e, at=rb0.node)
+        subs = [x for x in au.walk(te) if isinstance(x, ast.Subscript) and isinstance(au.const(x.slice), int)]
+        if subs:
+            ctx.check(au.const(subs[0].slice) == 0, "C04-E1", ctx.site(mod, rfn),
+                      f"{fmt}: the row tag is read from token {au.const(subs[0].slice)}, the exporter writes the length first",
+                      "a vertex index is taken for the number of vertices of the row", note=f"{fmt}: row tag = first token")
     for wb in wblocks:
         if not isinstance(wb.tag, tuple):
             continue
@@ -1299,6 +1343,17 @@ def run_xyz(ctx, repo):
         if extra:
             wb.unknown = []
             ok = any(rs.ok and rs.skip == wb.fields and rs.arity == ("const", extra) for c, rs in stage)
+            for c, rs in stage:
+                if rs.ok and rs.skip == wb.fields:
+                    for test, pol in au.guards(c):
+                        lens = [x for x in au.walk(test) if isinstance(x, ast.Call) and isinstance(x.func, ast.Name) and x.func.id == "len"]
+                        if len(lens) == 1:
+                            v = cc.eval_test(_TagSubst(au.norm(lens[0])).visit(cc.clean(test)), {"__tag": wb.fields + extra})
+                            if v is not None:
+                                ctx.check(bool(v) == pol, "C04-E1", ctx.site(mod, rfn, c),
+                                          f"xyz: a line of {wb.fields + extra} values (point and normal) does not pass the importer's test "
+                                          f"for lines carrying a normal", f"`{au.src(test)}` with {wb.fields + extra} tokens",
+                                          note=f"xyz: {wb.fields + extra}-token lines are read as point + normal")
             ctx.check(ok, "C04-E1", ctx.site(mod, wfn, wb.write),
                       f"xyz: {extra} extra value(s) are written after the {wb.fields} coordinates but the importer does not read "
                       f"tokens [{wb.fields}:{wb.fields + extra}] back", "normals written next to the points are lost or mis-sliced",
@@ -2061,6 +2116,69 @@ def geogram_precondition(ctx, repo, wfn):
                     if au.call_tail(k) == "create_attribute" and k.args and isinstance(k.args[0], ast.Constant) \
                             and isinstance(k.func.value, ast.Attribute):
                         made.add((k.args[0].value, k.func.value.attr))
+    # the preparing call runs for every (volume mesh, geogram file) and for no other mesh class
+    for c in au.calls(save):
+        ch = au.chain(c.func)
+        if not (ch and len(ch) >= 3 and ch[-2] == "connectivity"):
+            continue
+
+        def ev(test, V, G):
+            if isinstance(test, ast.BoolOp):
+                vals = [ev(v, V, G) for v in test.values]
+                return _and3(vals) if isinstance(test.op, ast.And) else _or3(vals)
+            if isinstance(test, ast.UnaryOp) and isinstance(test.op, ast.Not):
+                v = ev(test.operand, V, G)
+                return None if v is None else (not v)
+            if isinstance(test, ast.Call) and au.call_tail(test) == "isinstance" and len(test.args) == 2 \
+                    and au.src(test.args[1]).endswith("VolumeMesh"):
+                return V
+            if isinstance(test, ast.Compare) and len(test.ops) == 1 and isinstance(test.ops[0], (ast.In, ast.NotIn)) \
+                    and isinstance(test.left, ast.Constant) and isinstance(test.left.value, str) and "geogram" in test.left.value:
+                return G if isinstance(test.ops[0], ast.In) else (not G)
+            if isinstance(test, ast.Call) and au.call_tail(test) in ("endswith",) and test.args \
+                    and isinstance(test.args[0], ast.Constant) and "geogram" in str(test.args[0].value):
+                return G
+            return None
+        def runs(V, G):
+            return _and3([(lambda v, pol: None if v is None else (v == pol))(ev(t, V, G), pol) for t, pol in au.guards(c)] or [True])
+        ctx.check(runs(True, True) is not False and runs(False, True) is False and runs(False, False) is False, "C04-X1",
+                  ctx.site("mesh.mesh", save, c),
+                  "save(): the cell adjacency needed by the geogram exporter is not prepared exactly for volume meshes",
+                  f"guard evaluates to {runs(True, True)} for (VolumeMesh, .geogram_ascii) and {runs(False, True)} for another mesh "
+                  f"class: the export of a volume mesh raises on the missing attribute, or a surface mesh is asked for a method "
+                  f"it does not have", note="save(): adjacency prepared iff VolumeMesh and geogram file")
+    # ignore_elements: a container is emptied only when its kind was named by the caller, together with its corner containers
+    ps = au.params(save)
+    ig = ps[2] if len(ps) > 2 else None
+    fields = []
+    if repo.has_func(MESHDATA, "RawMeshData.__init__"):
+        for st in au.stmts(repo.func(MESHDATA, "RawMeshData.__init__").body):
+            for t in au.assign_targets(st):
+                if au.is_self_attr(t) and not t.attr.startswith("_"):
+                    fields.append(t.attr)
+    cleared = {}
+    for c in au.calls(save):
+        if au.call_tail(c) == "clear" and isinstance(c.func.value, ast.Attribute) and ig:
+            cont = c.func.value.attr
+            keys = []
+            for t, pol in au.guards(c):
+                if isinstance(t, ast.Compare) and len(t.ops) == 1 and isinstance(t.comparators[0], ast.Name) \
+                        and t.comparators[0].id == ig and isinstance(t.left, ast.Constant):
+                    keys.append((t.left.value, isinstance(t.ops[0], ast.In) == pol))
+            key = keys[0] if keys else (None, False)
+            ok = key[1] and isinstance(key[0], str) and (cont == key[0] or cont.startswith(key[0][:-1] + "_"))
+            ctx.check(ok, "C04-X1", ctx.site("mesh.mesh", save, c),
+                      f"save(): mesh.{cont} is emptied under a condition that is not `'{cont.split('_')[0] + ('s' if '_' in cont else '')}' in {ig}`",
+                      f"guard key {key}: elements the caller did not ask to ignore are missing from the file",
+                      note=f"save(): {cont} cleared only when '{key[0]}' is ignored")
+            if ok:
+                cleared.setdefault(key[0], set()).add(cont)
+    for key, got in sorted(cleared.items()):
+        want = {f_ for f_ in fields if f_ == key or f_.startswith(key[:-1] + "_")}
+        ctx.check(want <= got, "C04-X1", ssite,
+                  f"save(): ignoring '{key}' leaves {sorted(want - got)} filled",
+                  f"the exporters write corner / facet containers of elements that are no longer in the file",
+                  note=f"save(): ignoring '{key}' clears {sorted(got)}")
     for nm, fld, c in need:
         ctx.check((nm, fld) in made, "C04-X1", ctx.site(mod, wfn, c),
                   f"geogram: the exporter reads mesh.{fld} attribute '{nm}' unconditionally but save() does not have it created",
